@@ -208,6 +208,7 @@ async def run_script_async(script: dict) -> dict:
     d, ex, pairs = build_exchange(cfg, pj, max_concurrent=script.get("max_concurrent", 1))
     steps = script["steps"]
     sources = [bs.FifoQueueEventSource() for _ in pairs]
+    extra_source = bs.FifoQueueEventSource()      # a second feed that may carry bars of any pair (e.g. another bar period)
     # API steps grouped under the time of the preceding bar
     api_at: Dict[int, List[int]] = {}
     cur_t = None
@@ -221,7 +222,7 @@ async def run_script_async(script: dict) -> dict:
             ev = bsbar.BarEvent(T(a["t"]), bsbar.Bar(T(a["t"]) - TICK, pairs[a["p"] - 1], pj.price(pr, a["o"]),
                                                      pj.price(pr, a["h"]), pj.price(pr, a["l"]), pj.price(pr, a["c"]), vol))
             bar_events[id(ev)] = k
-            sources[a["p"] - 1].push(ev)
+            (extra_source if a.get("dup") else sources[a["p"] - 1]).push(ev)
         else:
             assert cur_t is not None, "requests are issued from handlers: a bar must come first"
             api_at.setdefault(cur_t, []).append(k)
@@ -337,6 +338,7 @@ async def run_script_async(script: dict) -> dict:
 
     for s in sources:
         ex.add_bar_source(s)
+    ex.add_bar_source(extra_source)
     for p in pairs:
         ex.subscribe_to_bar_events(p, strategy)
     ex.subscribe_to_order_events(on_order_event)
